@@ -189,6 +189,10 @@ func (t *WeightedMerkleTrie) deserializeTrie(pairs []*PersistTriePair, ind *int)
 	if *ind >= len(pairs) {
 		return nil, errors.New("index out of bounds")
 	}
+	if pairs[*ind] == nil {
+		// a CBOR null inside the pairs array decodes to a nil pair
+		return nil, errors.New("invalid pair")
+	}
 
 	node, err := DeserializeNode(pairs[*ind].Value)
 	if err != nil {
